@@ -260,7 +260,8 @@ fn model(bits: usize, op: Op, args: &[V]) -> Expect {
             };
             match (op, e) {
                 (next_power_of_two, Some(p)) => is(u(&p, bits)),
-                (next_power_of_two, None) => is(V::Panic),
+                // overflow of the unchecked form: no value is defined by the binary expansion (the checked form must say None)
+                (next_power_of_two, None) => dont_care(),
                 (_, Some(p)) => is(V::some(u(&p, bits))),
                 (_, None) => is(V::None),
             }
